@@ -46,3 +46,9 @@ Theorem clean_pinned_refuted :
   length (clean d6_cfg 0 0%Z [d6_entry 1; d6_entry 2; d6_entry 3]) = 2%nat.
 Proof. vm_compute. split; reflexivity. Qed.
 Print Assumptions clean_pinned_refuted.
+
+(* D13: the pinned DNS handler indexed Question[0] unconditionally *)
+From Verif Require Import Dns.
+Theorem dns_pinned_refuted : exists c qs, handle_request_pinned c qs = Panic.
+Proof. exists (mkDcfg 0 [] [] []), []. reflexivity. Qed.
+Print Assumptions dns_pinned_refuted.
